@@ -30,6 +30,8 @@ CONFIGS = {
     "NB": [{"cls": "TrN", "accept": ["pk/a.py", "pk/b.py"], "events": EA, "guards": True, "bookkeeping": False}],
     "NC": [{"cls": "TrC", "accept": ["pk/a.py"], "events": EA, "guards": True, "caching": False}],
     "ALL": [{"cls": "TrAll", "accept": "ALL", "events": EA, "guards": True}],
+    # a caching tracer instruments pk/a.py, a tracer that forbids caching instruments another file only: nothing of the stack's work may be cached
+    "ANC": [{"cls": "TrA", "accept": ["pk/a.py", "sub/c.py"], "events": EA, "guards": True}, {"cls": "TrC", "accept": ["pk/b.py"], "events": EA, "guards": True, "caching": False}],
     "AB": [{"cls": "TrA", "accept": ["pk/a.py", "sub/c.py"], "events": EA, "guards": True}, {"cls": "TrB", "accept": ["pk/b.py", "pk/a.py"], "events": EB, "guards": True, "module": "traitlets.fake"}],
 }
 MODS = ["pk/__init__.py", "pk/a.py", "pk/b.py", "sub/c.py"]
@@ -38,7 +40,7 @@ SIG_STATIC = "two configurations with the same class name, subscribed events and
 
 def gen_history(rng):
     n = rng.choice([2, 3, 3, 4])
-    pool = ["P", "P", "A", "A", "A2", "Ag", "B", "B", "NB", "NC", "ALL", "AB"] + (["As"] if rng.random() < 0.15 else [])
+    pool = ["P", "P", "A", "A", "A2", "Ag", "B", "B", "NB", "NC", "ALL", "AB", "ANC"] + (["As"] if rng.random() < 0.15 else [])
     steps = []
     for i in range(n):
         # raises: pk.b cannot be imported in this process (a missing dependency): pk/__init__.py and pk/a.py are compiled, cached and raise at import
